@@ -3,6 +3,7 @@ its rendering for the E1 engine (harness/src/bin/eng_world.rs) and for Coq, the 
 view, and the common check driver."""
 import json
 
+import re
 from common import *
 
 IMPORTS = "Loop.World Loop.Checks"
@@ -209,6 +210,37 @@ def gen_abort_in_post_stop(rng):
     for i in range(1, n):
         ops.append(("open", child_gate[i]))
     ops.append(("settle",))
+    return {"actors": actors, "msgs": msgs, "ops": ops}
+
+
+def gen_backlog_then_sup(rng):
+    """Several user messages are already queued when a handler starts (it parks at a gate); while it is
+    parked supervision events (a child starts / stops / is killed) arrive; after the gate opens the
+    supervision events must be served before the REST of the backlog (seeded regression C03-5: a
+    'message batch' pulled out of the mailbox was worked off without looking at the supervision port)."""
+    trivial = ([], ("ok",))
+    nkids = rng.choice([1, 1, 2, 3])
+    actors = [{"pre": trivial, "ps": trivial, "stop": ([("t",)], ("ok",)), "sup": ([("t",)] * rng.choice([0, 1]), ("ok",)), "link": None}]
+    for i in range(1, nkids + 1):
+        actors.append({"pre": trivial, "ps": trivial, "stop": trivial, "sup": None, "link": 0})
+    msgs = {1: ([("g", 1)], ("ok",)), 2: ([("t",)], ("ok",)), 3: trivial, 4: ([("t",)], ("ok",))}
+    ops = [("spawn", 0), ("settle",)]
+    pre_kids = [i for i in range(1, nkids + 1) if rng.random() < 0.5]
+    for i in pre_kids:
+        ops += [("spawn", i), ("settle",)]
+    ops += [("send", 0, 1)]
+    for _ in range(rng.choice([2, 3, 4, 6])):
+        ops += [("send", 0, rng.choice([2, 3, 4]))]
+    ops += [("settle",)]                       # handler of message 1 is parked, the rest is backlog
+    for i in range(1, nkids + 1):
+        if i in pre_kids:
+            ops += [rng.choice([("kill", i), ("stop", i, None), ("stop", i, 10)])]
+        else:
+            ops += [("spawn", i)]
+        ops += [("settle",)]                   # one event per settle window: their order is determined
+    if rng.random() < 0.25:
+        ops += [("stop", 0, None)]
+    ops += [("open", 1), ("settle",)]
     return {"actors": actors, "msgs": msgs, "ops": ops}
 
 
@@ -494,6 +526,13 @@ def compare_build(chk, scs, build, tag, oracle_fn, accept, what, distinct, mode=
     local = mode != "send"
     pre = f"local.{mode}." if local else ""
     impl = run_harness(build, "eng_world", [to_line(sc, mode) for sc in scs], shards=8)
+    # teardown report of the harness: actors that were still not Stopped after the final kill() + settle
+    survived = {}
+    for k, it in enumerate(impl):
+        m = re.search(r"\(\* SURVIVED-KILL ([\d ]+)\*\)", it)
+        if m:
+            survived[k] = [int(x) for x in m.group(1).split()]
+            impl[k] = it[:m.start()].rstrip()
     exprs = []
     with_model = [True for sc in scs]
     for sc, it, wm in zip(scs, impl, with_model):
@@ -527,6 +566,16 @@ def compare_build(chk, scs, build, tag, oracle_fn, accept, what, distinct, mode=
             chk.count(pre + "op." + o[0])
         vi = per_actor(itr, n)
         desc = {"scenario": to_line(sc, mode), "impl_trace": it}
+        if idx in survived:
+            # kill is immediate (C03): for C03 this is the property itself; for the other checks built on
+            # this engine it means the runs are no longer comparable (the correspondence is broken)
+            desc["survived_final_kill"] = survived[idx]
+            chk.violation(f"actors {survived[idx]} were not Stopped after the harness's final kill() and settle",
+                          f"{chk.prop}: after the scenario below every gate was opened and kill() was called on every actor; once the runtime was quiescent "
+                          f"actors {survived[idx]} had still not reached Stopped (kill() lost or not acted upon)\n"
+                          + json.dumps(desc, indent=1) + f"\nbuild: {tag}" + "\nreplay: echo '<scenario>' | harness/target/debug/eng_world\n",
+                          failing_input=(chk.prop == "C03"))
+            continue
         if not accept(oracle):
             if not shrunk:
                 # minimise the first failing scenario against the real code
@@ -604,6 +653,8 @@ def gen_local(rng, k, focus):
         sc = gen_abort_in_post_stop(rng)
     elif k % 20 == 13:
         sc = gen_fail_with_pending_stop(rng)
+    elif k % 20 == 3:
+        sc = gen_backlog_then_sup(rng)
     elif k % 5 < 3:
         sc = gen_scenario(rng, focus if k % 2 else "mixed", link_p=0.0)
     elif k % 5 == 3:
@@ -653,6 +704,8 @@ def run_loop_check(chk, oracle_fn, focus, what, accept=lambda o: o == "true", co
             scs.append(gen_many_children(chk.rng))
         elif k % 20 == 13:
             scs.append(gen_fail_with_pending_stop(chk.rng))
+        elif k % 20 == 3:
+            scs.append(gen_backlog_then_sup(chk.rng))
         elif k % 8 == 7:
             scs.append(gen_abort_in_post_stop(chk.rng))
         elif k % 5 == 4:
